@@ -233,14 +233,21 @@ impl Write for BaseStream {
     }
 }
 
-fn read_timeout(stream: &mut impl Read, buf: &mut [u8], timeout: &Option<mpsc::Sender<()>>) -> io::Result<usize> {
+fn read_timeout(stream: &mut impl Read, buf: &mut [u8], timeout: &mut Option<mpsc::Sender<()>>) -> io::Result<usize> {
     match stream.read(buf) {
         Ok(0) => {
             #[cfg(unix)]
-            if let Some(timeout) = timeout {
+            if let Some(tx) = timeout {
                 // On Unix we get a 0 read when the connection is shutdown by the timeout thread.
-                if !buf.is_empty() && timeout.send(()).is_err() {
-                    return Err(io::ErrorKind::TimedOut.into());
+                if !buf.is_empty() {
+                    if tx.send(()).is_err() {
+                        return Err(io::ErrorKind::TimedOut.into());
+                    }
+                    // The ping went through, so this is the peer's end of stream and the timeout
+                    // thread has gone: forget it, or the next read after end of stream (which
+                    // returns 0 again) would find the channel closed and report a timeout that
+                    // never happened.
+                    *timeout = None;
                 }
             }
             Ok(0)
